@@ -775,9 +775,15 @@ func (e *Env) smokePool(label, kind string) []plan.Op {
 	var pool []plan.Op
 	switch kind {
 	case "enc":
+		// bystanders: validations and NewMnemonic on the default source (the other generator)
 		pool = append(append(pool, enc...), chk[:4]...)
+		for k, n := range []int64{12, 24, 18} {
+			pool = append(pool, plan.Op{Fn: "new", L: int64((k * 4) % ref.NLang), N: n})
+		}
 	case "chk":
-		pool = append(append(pool, chk...), enc[:3]...)
+		// bystanders: both generators (they share the checksum code with the validator)
+		pool = append(append(pool, chk...), enc...)
+		pool = append(pool, plan.Op{Fn: "new", L: 0, N: 12}, plan.Op{Fn: "new", L: 5, N: 24})
 	case "seed":
 		pool = append(append(append(pool, seed...), enc[:2]...), chk[:2]...)
 	case "str":
